@@ -18,7 +18,8 @@ type tcall struct {
 	call *ssa.Call
 	env  Env
 	fn   *ssa.Function
-	top  *ssa.Call // the call in the entry function through which the call is reached (the call itself when it is there)
+	top  *ssa.Call       // the call in the entry function through which the call is reached (the call itself when it is there)
+	via  []*ssa.Function // the helpers descended through, outermost first
 }
 
 func (t *tcall) P(c *Ctx) string { return c.Path(t.call, t.env) }
@@ -29,6 +30,21 @@ func (c *Ctx) treeCalls(f *ssa.Function, env Env, depth int, m func(cl *ssa.Call
 }
 
 func (c *Ctx) treeCallsT(f *ssa.Function, env Env, depth int, top *ssa.Call, m func(cl *ssa.Call, env Env) bool) []*tcall {
+	return c.treeCallsV(f, env, depth, top, nil, m)
+}
+
+// hostsInline: an anchor call found inside helpers — the results of those helpers are rendered as the expressions they
+// return, so that `op, sd, err := s.parseVerified(req)` names op and sd after the calls that produced them.
+func (c *Ctx) hostsInline(t *tcall) {
+	for _, g := range t.via {
+		if c.inlineFns == nil {
+			c.inlineFns = map[*ssa.Function]bool{}
+		}
+		c.inlineFns[g] = true
+	}
+}
+
+func (c *Ctx) treeCallsV(f *ssa.Function, env Env, depth int, top *ssa.Call, via []*ssa.Function, m func(cl *ssa.Call, env Env) bool) []*tcall {
 	var out []*tcall
 	if f == nil || f.Blocks == nil || depth > 2 {
 		return nil
@@ -43,7 +59,7 @@ func (c *Ctx) treeCallsT(f *ssa.Function, env Env, depth int, top *ssa.Call, m f
 			if t == nil {
 				t = cl
 			}
-			out = append(out, &tcall{call: cl, env: env, fn: f, top: t})
+			out = append(out, &tcall{call: cl, env: env, fn: f, top: t, via: via})
 			return
 		}
 		if g := cl.Call.StaticCallee(); g != nil && inModule(g) && g.Blocks != nil && g != f && pkgPathOf(g) == pkgPathOf(f) && (g.Object() == nil || !g.Object().Exported()) {
@@ -51,7 +67,7 @@ func (c *Ctx) treeCallsT(f *ssa.Function, env Env, depth int, top *ssa.Call, m f
 			if t == nil {
 				t = cl
 			}
-			out = append(out, c.treeCallsT(g, c.calleeEnv(&cl.Call, g, env), depth+1, t, m)...)
+			out = append(out, c.treeCallsV(g, c.calleeEnv(&cl.Call, g, env), depth+1, t, append(append([]*ssa.Function{}, via...), g), m)...)
 		}
 	})
 	return out
@@ -77,6 +93,7 @@ func (c *Ctx) applierParseCall(rule, typ string, f *ssa.Function) *tcall {
 		c.Check(rule, "apply-"+typ+":parse-call", false, f.Pos(), fmt.Sprintf("expected exactly one call %s(anchoredOp.OperationRequest, true) in %s, found %d", parseOpMethod[typ], short(f.String()), len(ok)))
 		return nil
 	}
+	c.hostsInline(ok[0])
 	return ok[0]
 }
 
@@ -89,6 +106,7 @@ func (c *Ctx) applierSDCall(rule, typ string, f *ssa.Function, opPath string) *t
 		c.Check(rule, "apply-"+typ+":signed-data-call", false, f.Pos(), fmt.Sprintf("expected exactly one call %s(op.SignedData) on the parsed operation in %s, found %d", parseSDMethod[typ], short(f.String()), len(ok)))
 		return nil
 	}
+	c.hostsInline(ok[0])
 	return ok[0]
 }
 
@@ -106,20 +124,13 @@ func (c *Ctx) revealValueRules() map[string]*ssa.Function {
 			continue
 		}
 		c.Analysed(f)
-		// schema := first call taking the request parameter and returning a *model.<X>Request
-		var schemaCall *ssa.Call
-		for _, cl := range findCalls(f, func(cl *ssa.Call) bool {
-			a := declArgs(cl)
-			return len(a) == 1 && c.Path(a[0], nil) == "$1" && strings.Contains(typeShort(cl.Type()), "Request")
-		}) {
-			schemaCall = cl
-			break
-		}
-		if schemaCall == nil {
+		// schema := what a decoding helper hands back for the request parameter, or the request struct decoded in place
+		sr := c.requestSchema(f, "Request")
+		if sr == nil {
 			c.Check("C02.G3", "parse-"+typ+":schema", false, f.Pos(), "could not find the request-decoding call on the request parameter")
 			continue
 		}
-		SC := c.Path(schemaCall, nil) + "#0"
+		SC := sr.SC
 		var sdCall *ssa.Call
 		for _, cl := range callsNamed(f, parseSDMethod[typ]) {
 			a := declArgs(cl)
@@ -545,7 +556,8 @@ func (c *Ctx) protectedHeaderRules() {
 			if g == nil || !(inModule(g) || isSlicesContains(g)) || !isBoolType(call.Type()) || len(call.Call.Args) != 2 {
 				return false
 			}
-			if c.Path(call.Call.Args[0], env) != "$0.Protocol.SignatureAlgorithms" || !isAlg(c.Path(call.Call.Args[1], env)) {
+			mList, mWanted := memberArgs(call)
+			if c.Path(mList, env) != "$0.Protocol.SignatureAlgorithms" || !isAlg(c.Path(mWanted, env)) {
 				return false
 			}
 			ok, _ := c.isMembershipFn(g)
